@@ -41,6 +41,14 @@ unsigned char nondet_uchar(void);
 #define VP_DIV1E9(x) 0
 #endif
 
+/* context budget: symbolic in verify / cover runs; the plain witness twin runs every thread greedily (until it blocks
+   or finishes), which is enough to show that the final assertions are reachable inside the bound */
+#if defined(VP_WITNESS) && !defined(VP_MUST_COVER) && !defined(VP_WITNESS_SYMBOLIC)
+#define VP_BUDGET(maxb) (maxb)
+#else
+static inline unsigned vp_budget(unsigned maxb) { unsigned b = nondet_uchar(); __CPROVER_assume(b <= maxb); return b; }
+#define VP_BUDGET(maxb) vp_budget(maxb)
+#endif
 /* ------------------------------------------------------------------ scheduler state */
 int vp_cur;                      /* id of the running thread (0 = setup / final) */
 unsigned vp_epoch;               /* incremented by every visible write: fair-spin yields block until it changes */
@@ -247,6 +255,30 @@ static inline void vp_unreachable_throw_i(uint32_t e) { (void)e; __CPROVER_assum
 static inline void vp_unreachable_throw_p(char* e) { (void)e; __CPROVER_assume(0); }
 static inline void vp_unreachable_throw_v(void) { __CPROVER_assume(0); }
 static inline void vp_terminate(void) { VP_CHECK(0, "std::terminate / abort reached"); __CPROVER_assume(0); }
+/* element-wise memmove for symbolic lengths (cbmc's built-in is imprecise there); loops are bounded by --unwindset */
+#define VP_MEMMOVE(name, T) \
+static inline void name(char* d, char* s, uint64_t n) { \
+  uint64_t k = n / sizeof(T); \
+  if (d == s || k == 0) return; \
+  if (__CPROVER_POINTER_OBJECT(d) != __CPROVER_POINTER_OBJECT(s) || __CPROVER_POINTER_OFFSET(d) < __CPROVER_POINTER_OFFSET(s)) { \
+    for (uint64_t i = 0; i < k; i++) ((T*)d)[i] = ((T*)s)[i]; \
+  } else { \
+    for (uint64_t i = k; i > 0; i--) ((T*)d)[i - 1] = ((T*)s)[i - 1]; \
+  } \
+}
+#ifdef VP_NATIVE
+static inline void vp_memmove_b(char* d, char* s, uint64_t n) { memmove(d, s, n); }
+static inline void vp_memmove_w(char* d, char* s, uint64_t n) { memmove(d, s, n); }
+static inline void vp_memmove_q(char* d, char* s, uint64_t n) { memmove(d, s, n); }
+static inline void vp_memmove_p(char* d, char* s, uint64_t n) { memmove(d, s, n); }
+static inline void vp_memset_b(char* d, int c, uint64_t n) { memset(d, c, n); }
+#else
+VP_MEMMOVE(vp_memmove_b, char)
+VP_MEMMOVE(vp_memmove_w, uint32_t)
+VP_MEMMOVE(vp_memmove_q, uint64_t)
+VP_MEMMOVE(vp_memmove_p, char*)
+static inline void vp_memset_b(char* d, int c, uint64_t n) { for (uint64_t i = 0; i < n; i++) d[i] = (char)c; }
+#endif
 static inline int vp_memcmp(char* a, char* b, uint64_t n) { return memcmp(a, b, n); }
 static inline uint64_t vp_strlen(char* a) { return strlen(a); }
 static inline char* vp_memchr(char* a, int c, uint64_t n) { return (char*)memchr(a, c, n); }
